@@ -160,6 +160,7 @@ func vEqStrings(a, b []string) bool {
 	return ok
 }
 
+// request header injection: exactly the session-derived values (plus preserved client values when configured) for every claim, shape and client input
 // verif: unwind=6 strlen=8 also=C19 paths=300000
 func vh_C07_request() {
 	n0 := ndChoice("name0", 2)
@@ -208,6 +209,7 @@ func vh_C07_request() {
 	verifReach("end")
 }
 
+// response header injection on the auth-only endpoint: exactly the session-derived values
 // verif: unwind=6 strlen=8 also=C19 paths=60000 tpaths=300000
 func vh_C07_response() {
 	n0 := ndChoice("name0", 2)
